@@ -210,7 +210,9 @@ def param_shape_case(ctx: Ctx, stream: str, i: int) -> None:
         # broadcast INTO the leaf shape; toeplitzOK: the band batch broadcasts TO the leading axes)
         stv, esxv = safe(Encoder().op, op)
         if stv == 'ok':
-            ctx.in_domain(stream, i, esxv, cfg)
+            # einsum blocks stretched against the input: `denseOK` (exact fit) is stronger than what Python transposes
+            # correctly — harmless stretches of batch axes are accepted by the library and lie outside the theorem's domain
+            ctx.in_domain(stream, i, esxv, cfg, allow=('dense:',) if which == 'einsum-stretch' else ())
         ins, outs = op.in_structure(), op.out_structure()
         st1, real = safe(jax.eval_shape, op.mv, ins)
         if st1 != 'ok':
